@@ -56,7 +56,8 @@ text = ["## 10. Seeded changes (realistic property-breaking edits) and what catc
         "under C05. Earlier",
         "rounds: see 8.2 (loop-head havoc found through C14-1) and the `check_props` entries of the",
         "seeds that a neighbouring property's check catches (C01-4 by C02, C14-4 by C17). Still missed,",
-        "with the reason in the table: C12-8, C15-2, C15-5, C16-6, C17-4.", "",
+        "with the reason in the table: C15-2, C15-5, C16-6, C17-4 (C12-8 was missed until the race-detector",
+        "program family for the network machine was added).", "",
         "| seed | change | outcome of the check |", "|---|---|---|"] + rows + [""]
 s = open(V + "/DESIGN.md").read()
 a, b = "<!-- seedtable:begin -->", "<!-- seedtable:end -->"
